@@ -100,8 +100,8 @@ D(u16, uint16_t) D(u64, uint64_t) D(i32, int32_t) D(i64, int64_t) D(f32, float) 
 //@ OBL {"name": "h20a_f32", "family": "h20a", "prop": "vp_h20a_f32", "in": 16, "out": 8, "unwind": 12, "fs": 32, "cbmc": ["--memory-leak-check"], "unwind_fn": {"SkipValueImpl": 1}, "recursion": {"SkipValueImpl": 0}, "bounds": "every float bit pattern, every strict prefix", "desc": "truncated encoding -> ParsingException"}
 //@ OBL {"name": "h20a_f64", "family": "h20a", "prop": "vp_h20a_f64", "in": 16, "out": 8, "unwind": 12, "fs": 32, "cbmc": ["--memory-leak-check"], "unwind_fn": {"SkipValueImpl": 1}, "recursion": {"SkipValueImpl": 0}, "bounds": "every double bit pattern, every strict prefix", "desc": "truncated encoding -> ParsingException"}
 //@ OBL {"name": "h20a_str", "family": "h20a", "prop": "vp_h20a_str", "in": 16, "out": 8, "unwind": 12, "fs": 32, "cbmc": ["--memory-leak-check"], "unwind_fn": {"SkipValueImpl": 1}, "recursion": {"SkipValueImpl": 0}, "bounds": "every string of length <= 4, every strict prefix of its encoding", "desc": "truncated string encoding -> ParsingException"}
-//@ OBL {"name": "h20b_objfull", "family": "h20b", "prop": "vp_h20b_objcut", "known": "vk_h20b", "in": 8, "out": 8, "unwind": 6, "fs": 32, "cbmc": ["--memory-leak-check"], "unwind_fn": {"SkipValueImpl": 1}, "recursion": {"SkipValueImpl": 0}, "cap_s": 3600, "bounds": "complete document {a:va,b:vb} with and without trailing data (quick; every cut point: thorough)", "desc": "object scope on the complete document: loads, destructor skips nothing, no terminate / leak", "cassume": ["in[2] % 9 >= 7"], "tier": "thorough"}
-//@ OBL {"name": "h20b_objcut", "family": "h20b", "prop": "vp_h20b_objcut", "known": "vk_h20b", "in": 8, "out": 8, "unwind": 6, "fs": 32, "cbmc": ["--memory-leak-check"], "unwind_fn": {"SkipValueImpl": 1}, "recursion": {"SkipValueImpl": 0}, "cap_s": 3600, "bounds": "document {a:va,b:vb} cut at every length 0..8", "desc": "object scope on a truncated document: catchable parsing error (F9 class: destructor throws -> terminate, recorded)", "tier": "thorough"}
+//@ OBL {"name": "h20b_objfull", "family": "h20b", "prop": "vp_h20b_objcut", "known": "vk_h20b", "in": 8, "out": 8, "unwind": 6, "fs": 32, "cbmc": ["--memory-leak-check"], "unwind_fn": {"SkipValueImpl": 1}, "recursion": {"SkipValueImpl": 0}, "cap_s": 3600, "bounds": "complete document {a:va,b:vb} with and without trailing data (quick; every cut point: thorough)", "desc": "object scope on the complete document: loads, destructor skips nothing, no terminate / leak", "cassume": ["in[2] % 9 >= 7"], "tier": "open"}
+//@ OBL {"name": "h20b_objcut", "family": "h20b", "prop": "vp_h20b_objcut", "known": "vk_h20b", "in": 8, "out": 8, "unwind": 6, "fs": 32, "cbmc": ["--memory-leak-check"], "unwind_fn": {"SkipValueImpl": 1}, "recursion": {"SkipValueImpl": 0}, "cap_s": 3600, "bounds": "document {a:va,b:vb} cut at every length 0..8", "desc": "object scope on a truncated document: catchable parsing error (F9 class: destructor throws -> terminate, recorded)", "tier": "open"}
 //@ VEC * 00000000000000000000
 //@ VEC * ffffffffffffffff0300
 //@ VEC * 0506040000000000
